@@ -97,7 +97,7 @@ fn write_subword_fn<W: Write>(
                     char_index=$((char_index + ${{#literal}}))
                     continue 2
                 fi
-                if [[ $literal == $subword* ]]; then
+                if [[ $mode = complete && $literal == $subword* ]]; then
                     break 2
                 fi
                 if [[ $subword == $literal* && -v "state_transitions[$literal_id]" ]]; then
@@ -154,7 +154,7 @@ fn write_subword_fn<W: Write>(
                             continue 3
                         fi
 
-                        if [[ $candidate == $subword* ]]; then
+                        if [[ $mode = complete && $candidate == $subword* ]]; then
                             break 3
                         fi
 
@@ -207,7 +207,7 @@ fn write_subword_fn<W: Write>(
                             continue 3
                         fi
 
-                        if [[ $candidate == $subword* ]]; then
+                        if [[ $mode = complete && $candidate == $subword* ]]; then
                             break 3
                         fi
 
